@@ -11,7 +11,7 @@ RULE = ("for every generated valid program, every single structural mutation in 
 ASSUMPTIONS = ["mutations that leave a valid program are excluded by construction: removing a PROGRAM statement; openers of program "
                "units; non-block DO (no END of its own); a label-DO closed by a labelled CONTINUE (the CONTINUE is a statement of its "
                "own); the END of a program unit in front of a main program without PROGRAM statement (that main program's END terminates the unit instead); a surplus END line of a program unit that the enclosing units absorb (the copy closes the enclosing unit, whose END closes the next, ...) and whose left-over is a bare END / END PROGRAM line (an empty main program without PROGRAM statement)"]
-TIE_MODULES = ["FparserModel.Block", "FparserModel.Splitline", "FparserModel.Generated.Blocks2008", "FparserModel.IoStmt", "FparserModel.IoStmtPins", "FparserModel.Generated.IoStmtTables"]
+TIE_MODULES = ["FparserModel.Block", "FparserModel.Splitline", "FparserModel.Generated.Blocks2008", "FparserModel.IoStmt", "FparserModel.IoStmtPins", "FparserModel.Generated.IoStmtTables", "FparserModel.Header", "FparserModel.HeaderPins", "FparserModel.Generated.HeaderTables"]
 
 UNITS = {"program", "module", "submodule", "subroutine", "function", "blockdata"}
 
@@ -178,6 +178,7 @@ def cases(tier, seed):
 
 
 def run(tier, rep, st):
+    util.sub_cosim(rep, tier, "cosim_header", "Fp.Header", 60, 600)
     util.sub_cosim(rep, tier, "cosim_iostmt", "Fp.IoStmt", 50, 600)
     results = engine.run_cases(__name__, cases(tier, rep.seed), rep)
     rep.evaluations = sum(r.get("evals", 0) for r in results)
